@@ -37,7 +37,7 @@ def required_counters(tier):
     return {'judged:operator-consistency': 200, 'judged:construction': 200, 'judged:mask-placement': 100, 'judged:commute-rotate': 50,
             'judged:commute-to_sky': 50, 'judged:annulus-membership': 100, 'judged:annulus-area': 50,
             'monitor:contains:CompoundPixelRegion': 100, 'monitor:to_mask:CompoundPixelRegion:center': 50, 'judged:sky-compound-contains': 20, 'history-steps': 30,
-            'unprojectable-sky-positions': 50}
+            'unprojectable-sky-positions': 50, 'sky-annulus-cases': 50}
 
 
 def setup(obs):
@@ -74,6 +74,14 @@ def generate(rng, tier, shard, nshards):
             yield {'lane': 'annulus-lattice', 'cls': rng.choice(gen.ANNULI_PIX), 'cx': rng.randint(-20, 20), 'cy': rng.randint(-20, 20),
                    'ro': rng.choice([5, 10, 13, 25]), 'ri': rng.choice([1, 2, 3, 4]), 'include': rng.choice(['absent', False]),
                    'angle_deg': rng.choice([0, 90, 180, 270])}
+            continue
+        if r < 0.12:
+            # a sky annulus and the sky shapes of its two outlines, on a rotated / scaled / flipped image
+            w = gen.wcs_spec(rng)
+            yield {'lane': 'sky-annulus', 'wcs': w, 'leaf': {'cls': rng.choice(gen.SKY_ANNULI), 'dx': rng.uniform(-200, 200), 'dy': rng.uniform(-200, 200),
+                                                             'size_deg': gen.logu(rng, 2, 60) * w['scale'], 'seed': rng.randrange(2 ** 31),
+                                                             'frame': w['frame'] if rng.random() < 0.7 else rng.choice(gen.SKY_FRAMES)},
+                   'rs': rng.randrange(2 ** 31)}
             continue
         if r < 0.3:
             cls = rng.choice(gen.ANNULI_PIX)
@@ -113,9 +121,12 @@ def build_with_operators(spec):
     a = sub(spec['p']['region1'])
     b = sub(spec['p']['region2'])
     op = spec['p']['operator']
-    c = {'and': lambda: a & b, 'or': lambda: a | b, 'xor': lambda: a ^ b}[op]()
+    if op in ('and', 'or', 'xor'):
+        c = {'and': lambda: a & b, 'or': lambda: a | b, 'xor': lambda: a ^ b}[op]()
+    else:
+        c = regions.CompoundPixelRegion(a, b, S._OPS[op])          # the operator given as another callable
     if 'meta' in spec:
-        c = regions.CompoundPixelRegion(a, b, OPS[op], meta=regions.RegionMeta(spec['meta']))
+        c = regions.CompoundPixelRegion(a, b, S._OPS[op], meta=regions.RegionMeta(spec['meta']))
         _GIVEN_META[id(c)] = (c, dict(spec['meta']))
     return c, a, b, op
 
@@ -180,6 +191,8 @@ def run_case(case, obs):
         return run_annulus_lattice(case, obs)
     if case['lane'].startswith('annulus'):
         return run_annulus(case, obs)
+    if case['lane'] == 'sky-annulus':
+        return run_sky_annulus(case, obs)
     spec = case['region']
     built = build_with_operators(spec)
     comp, a, b, opname = built
@@ -201,7 +214,7 @@ def run_case(case, obs):
         if type(node).__name__ != 'CompoundPixelRegion':
             continue
         r = np.asarray(node.contains(pc))
-        exp = NPOP[node.operator](np.asarray(node.region1.contains(pc)), np.asarray(node.region2.contains(pc)))
+        exp = S.op_logic(node.operator)(np.asarray(node.region1.contains(pc)), np.asarray(node.region2.contains(pc)))
         if not dict.get(node.meta, 'include', True):
             exp = np.logical_not(exp)
         obs.check(r.shape == exp.shape and bool(np.array_equal(r, exp)), 'compound-membership-not-operator-of-operands',
@@ -259,7 +272,7 @@ def run_case(case, obs):
                 fx, fy = w.world_to_pixel(far)
                 obs.count('unprojectable-sky-positions', int(np.sum(~np.isfinite(fx) | ~np.isfinite(fy))))
             r = np.asarray(sk.contains(sc, w))
-            exp = NPOP[sk.operator](np.asarray(sk.region1.contains(sc, w)), np.asarray(sk.region2.contains(sc, w)))
+            exp = S.op_logic(sk.operator)(np.asarray(sk.region1.contains(sc, w)), np.asarray(sk.region2.contains(sc, w)))
             if not dict.get(sk.meta, 'include', True):
                 exp = np.logical_not(exp)
             obs.check(bool(np.array_equal(r, np.broadcast_to(exp, r.shape))), 'sky-compound-membership-not-operator-of-operands',
@@ -297,6 +310,56 @@ def run_annulus_lattice(case, obs):
     expm = np.logical_xor(place(mi, m.bbox), place(mo, m.bbox)).astype(int)
     obs.check(bool(np.array_equal(np.asarray(m.data), expm)), 'annulus-mask-not-outer-minus-inner', f'{cls}: centre mask differs from outer mask minus inner mask (lattice case)',
               'annulus-membership')
+
+
+def run_sky_annulus(case, obs):
+    """sky annulus membership = inside the sky shape of its outer outline and not inside that of its inner outline."""
+    import regions
+    from regions import PixCoord
+    from vmon.checks.c06 import build_sky_leaf
+    w = S.build(case['wcs'])
+    ann = build_sky_leaf(case['leaf'], w)
+    name = type(ann).__name__
+    if name == 'CircleAnnulusSkyRegion':
+        inner, outer = regions.CircleSkyRegion(ann.center, ann.inner_radius), regions.CircleSkyRegion(ann.center, ann.outer_radius)
+    else:
+        comp = regions.EllipseSkyRegion if name[0] == 'E' else regions.RectangleSkyRegion
+        inner = comp(ann.center, ann.inner_width, ann.inner_height, ann.angle)
+        outer = comp(ann.center, ann.outer_width, ann.outer_height, ann.angle)
+    po, pi_ = outer.to_pixel(w), inner.to_pixel(w)
+    q = {'kind': 'mixed', 'form': '1d', 'shape': None, 'dtype': 'float64', 'n': 160, 'rs': case['rs']}
+    pc = c01.make_queries(po, q)
+    pc2 = c01.make_queries(pi_, dict(q, kind='boundary'))
+    px, py = np.concatenate([np.asarray(pc.x, dtype=float), np.asarray(pc2.x, dtype=float)]), np.concatenate([np.asarray(pc.y, dtype=float), np.asarray(pc2.y, dtype=float)])
+    sc = w.pixel_to_world(px, py)
+    ok = np.isfinite(np.asarray(sc.data.lon.value)) & np.isfinite(np.asarray(sc.data.lat.value))
+    px, py = px[ok], py[ok]
+    if px.size == 0:
+        return
+    sc = w.pixel_to_world(px, py)
+    got = np.broadcast_to(np.asarray(ann.contains(sc, w)), px.shape)
+    exp = np.logical_and(np.asarray(outer.contains(sc, w)), np.logical_not(np.asarray(inner.contains(sc, w))))
+    if not geom._include(ann):
+        exp = np.logical_not(exp)
+    # positions within conversion noise of either outline are not judged
+    conv = PixCoord.from_sky(sc, w)
+    cx_, cy_ = np.asarray(conv.x, dtype=float), np.asarray(conv.y, dtype=float)
+    dec = np.ones(px.shape, dtype=bool)
+    for shp in (po, pi_):
+        m, band = geom.shape_margin(shp, cx_, cy_)
+        L = max(float(getattr(shp, 'width', 0) or 0), float(getattr(shp, 'height', 0) or 0), 2 * float(getattr(shp, 'radius', 0) or 0))
+        dec &= np.abs(m) > band + 1e-6 * L
+    obs.skip(int((~dec).sum()), 'sky-annulus')
+    bad = dec & (got != exp)
+    obs.count('sky-annulus-cases')
+    if bad.any():
+        i = int(np.flatnonzero(bad)[0])
+        obs.violation('sky-annulus-membership-not-outer-minus-inner',
+                      f'{name} (angle {getattr(ann, "angle", None)!r}, WCS rot {case["wcs"]["rot_deg"]:.3f} deg parity {case["wcs"]["parity"]}): contains gave '
+                      f'{bool(got[i])} at pixel ({px[i]!r}, {py[i]!r}) but outer-and-not-inner of the sky shapes with the same parameters says {bool(exp[i])}; '
+                      f'{int(bad.sum())} of {int(dec.sum())} positions differ')
+    else:
+        obs.ok(int(dec.sum()), 'annulus-membership')
 
 
 def run_annulus(case, obs):
